@@ -2,11 +2,13 @@
 // derive(PartialEq), derive(Eq) of backing::Memory { endian, sections: BTreeMap<u64, Section> } and of
 // Section { data: Vec<u8>, permissions }: compiler-generated structural equality — same endianness, same
 // section keys, and per key the same bytes and the same permissions (MemoryPermissions compares its bits).
+pub open spec fn secmap_eq(sa: SecMap, sb: SecMap) -> bool {
+    &&& sa.dom() =~= sb.dom()
+    &&& forall|k: u64| #[trigger] sa.contains_key(k) ==>
+            sa[k].data@ == sb[k].data@ && sa[k].permissions.bits == sb[k].permissions.bits
+}
 pub open spec fn backing_eq(a: Memory, b: Memory) -> bool {
-    &&& a.endian == b.endian
-    &&& a.sections@.dom() =~= b.sections@.dom()
-    &&& forall|k: u64| #[trigger] a.sections@.contains_key(k) ==>
-            a.sections@[k].data@ == b.sections@[k].data@ && a.sections@[k].permissions.bits == b.sections@[k].permissions.bits
+    a.endian == b.endian && secmap_eq(a.sections@, b.sections@)
 }
 impl vstd::std_specs::cmp::PartialEqSpecImpl for Memory {
     open spec fn obeys_eq_spec() -> bool { true }
@@ -19,12 +21,10 @@ impl PartialEq for Memory {
 impl Eq for Memory {}
 
 /// equal backings have the same content at every address
-pub proof fn lemma_backing_eq_view(a: Memory, b: Memory)
-    requires backing_eq(a, b), b.wf(),
-    ensures forall|x: int| (#[trigger] vw(a.sections@, x)) == vw(b.sections@, x),
+pub proof fn lemma_backing_eq_view(sa: SecMap, sb: SecMap)
+    requires secmap_eq(sa, sb), sections_wf(sb),
+    ensures forall|x: int| (#[trigger] vw(sa, x)) == vw(sb, x),
 {
-    let sa = a.sections@;
-    let sb = b.sections@;
     assert forall|x: int| (#[trigger] vw(sa, x)) == vw(sb, x) by {
         lemma_vw_inv(sa, x);
         if vw(sa, x) is Some {
